@@ -42,7 +42,7 @@ ASSUMPTIONS = (
     "crash during module generation is C15's business and is not repeated here",
 )
 EXPECTED_PROBES = ("module-file-reloaded-by-later-process", "modtemplate", "mako-render", "get_def-rendered", "non-ascii-source",
-                   "uris-differing-in-punctuation", "nested-def-default-from-context", "modulename_callable")
+                   "uris-differing-in-punctuation", "nested-def-default-from-context", "modulename_callable", "shadowed-in-second-directory")
 
 ENC = {"utf8": "utf-8", "latin1": "latin-1", "cp1251": "cp1251", "ascii": "ascii"}
 DECO = {"utf8": "grüß€Ж", "latin1": "grüßé", "cp1251": "ЖивоЯ", "ascii": "plain"}
@@ -149,7 +149,8 @@ def gen_program(rng, k, uri, enc):
         names.append("title")
     text += "".join(defs) + "".join(body)
     return {"uri": uri, "encoding": enc, "text": text, "files": files, "defs": names, "marker": marker, "features": feats,
-            "inherit": inherit}
+            "inherit": inherit, "shadow": bool(files) and rng.random() < 0.5,
+            "output_encoding": rng.choice((None, None, "utf-8", "utf-16", "utf-8-sig"))}
 
 
 def generate(rng, tier, idx, force=None):
@@ -236,6 +237,8 @@ def execute(trace, root):
         viol.append(("C08/" + cls + ((":" + detail) if detail else ""), msg))
 
     srcdir = os.path.join(root, "src")
+    src2 = os.path.join(root, "src2")  # a second, lower-priority template directory
+    os.makedirs(src2)
     md = os.path.join(root, "mod")
     md2 = os.path.join(root, "mod2")
     os.makedirs(srcdir)
@@ -246,6 +249,14 @@ def execute(trace, root):
             os.makedirs(os.path.dirname(path), exist_ok=True)
             with open(path, "wb") as f:
                 f.write(text.encode(ENC[p["encoding"]]))
+        if p.get("shadow"):
+            # same-named support files in the lower-priority directory: they must never be served
+            for uri, text in p["files"].items():
+                path = os.path.join(src2, uri.lstrip("/"))
+                os.makedirs(os.path.dirname(path), exist_ok=True)
+                with open(path, "wb") as f:
+                    f.write(("SHADOWED-COPY-OF-%s" % uri).encode("ascii"))
+            probe("shadowed-in-second-directory")
         if p["encoding"] not in ("ascii",):
             probe("non-ascii-source")
     stems = {}
@@ -259,7 +270,8 @@ def execute(trace, root):
 
     def req_for(p, path, **extra):
         r = {"op": "battery", "path": path, "uri": p["uri"], "src": os.path.join(srcdir, p["uri"].lstrip("/")), "srcdir": srcdir,
-             "encoding": ENC[p["encoding"]], "ctx": CTX, "defs": p["defs"], "marker": p["marker"], "keep": True}
+             "encoding": ENC[p["encoding"]], "ctx": CTX, "defs": p["defs"], "marker": p["marker"], "keep": True,
+             "dirs": [srcdir, src2], "output_encoding": p.get("output_encoding")}
         r.update(extra)
         return r
 
